@@ -148,6 +148,9 @@ extra_calls = st.sampled_from(["1 + 1", "2 * 3 + 4 > 9", "2*3", "1 +", "4 > 3", 
 fn_pairs = st.sampled_from(["sin(-1)", "sin(-2)", "exp(-1)", "exp(-2)", "cos(-2)", "cos(-1)", "cos(1)", "cos(1 == 1)",
                             "sin(1.0)", "sin(1)", "sin(2 > 1)", "exp(-2) + exp(-1)", "sin(-1) * sin(-2)"]).map(
     lambda t: {"cfg": "default", "text": t, "fail": None})
+# a function among the selected operators, but no plain parenthesis
+nopar_calls = st.sampled_from(["(1+2)+1", "sqrt(4)+1", "sqrt(4)+foo", "1+2", "sqrt(9)", "(2)", "sqrt(1+3)+(1)"]).map(
+    lambda t: {"cfg": "fn_no_par", "text": t, "fail": None})
 postfix_calls = st.sampled_from(["3.14159@2", "2.71828@3", "1.23456@1 + 2", "2 * 9.87654@3", "3.14159@2 + foo", "(3.14159@2",
                                  "7.5 + 1", "1.23456@4 * 2", "0.55555@0"]).map(
     lambda t: {"cfg": "postfix", "text": t, "fail": None})
@@ -156,7 +159,7 @@ postfix_calls = st.sampled_from(["3.14159@2", "2.71828@3", "1.23456@1 + 2", "2 *
 @st.composite
 def _call(draw):
     c = dict(draw(st.one_of(default_expr(), default_expr(), lookup_expr(), string_expr(), inplace_expr(), deep_fail(),
-                            lookup_tight, factory_calls, orphan_calls, postfix_calls, extra_calls, fn_pairs, fn_pairs)))
+                            lookup_tight, factory_calls, orphan_calls, postfix_calls, extra_calls, fn_pairs, fn_pairs, nopar_calls)))
     # the call may be made inside 'with solver:' (an exception then leaves the block before it is caught)
     c["with"] = draw(st.integers(0, 3)) == 0
     return c
@@ -226,6 +229,11 @@ def make(cfg):
         steps = [dict(operators=["par"], otype=Otype.ARGS), dict(operators=["mul"], otype=Otype.BINARY),
                  dict(operators=["add"], otype=Otype.BINARY)]
         return ExpressionSolver(AtomBase, ops, steps)
+    if cfg == "fn_no_par":
+        # the selected operators contain a function but not the parenthesis: '(1+2)' is not an operand here, before and
+        # after a function call alike
+        from scinumtools.solver import OperatorSqrt
+        return ExpressionSolver(AtomBase, {"sqrt": OperatorSqrt, "add": OperatorAdd})
     if cfg == "extra_steps":
         # a subset of operators with a step list that also names operators which were not selected
         from scinumtools.solver import OperatorGt
